@@ -84,6 +84,9 @@ Seeds == {
   [id |-> "upload_file_nested", doc |-> Request("POST", "/form-multipart-enctype-post-method", "HTTP/1.1",
                               <<Host, Hdr("Content-Type", "multipart/form-data; boundary=b1"), Hdr("Content-Length", "181")>>,
                               Tk("body", "--b1\r\nContent-Disposition: form-data; name=\"note\"\r\n\r\nhello\r\n--b1\r\nContent-Disposition: form-data; name=\"f\"; filename=\"docs/new.html\"\r\nContent-Type: text/html\r\n\r\n<p>new</p>\r\n--b1--\r\n"))],
+  \* two requests in one segment: the server reads a connection once and must answer exactly once
+  [id |-> "pipelined_gets", doc |-> Request("GET", "/a.txt", "HTTP/1.1", <<Host>>,
+                              Tk("body", "GET /index.html HTTP/1.1\r\nHost: localhost\r\n\r\nGET /nx HTTP/1.1\r\nHost: localhost\r\n\r\n"))],
   [id |-> "upload_init_evil", doc |-> Request("POST", "/file-upload/initiate?name=../outside/evil.bin&lastModified=1&size=9", "HTTP/1.1", <<Host>>, Tk("body", "012345678"))],
   [id |-> "put_new",     doc |-> Request("PUT", "/new.txt", "HTTP/1.1", <<Host, Hdr("Content-Length", "4")>>, Tk("body", "data"))],
   [id |-> "post_dir",    doc |-> Request("POST", "/docs/", "HTTP/1.1", <<Host, Hdr("Content-Type", "application/octet-stream")>>, Tk("body", "blob"))],
